@@ -192,9 +192,10 @@ class SSH_Socket(ReadBuf, WriteBuf):
         e = None
         while s >= 0:
             s, e = self.recv()
-            if s < 0:
-                continue
             while self.unread_len > 0:
+                # A line may arrive in several TCP segments: wait for its terminator, unless the stream has ended.
+                if s >= 0 and b'\n' not in self._buf.getvalue()[self._buf.tell():]:
+                    break
                 line = self.read_line()
                 if len(line.strip()) == 0:
                     continue
